@@ -210,7 +210,7 @@ def validate_parallel(ctx, module, events, keep, cfg_text, batch=500, jobs=12):
             for t in chunk:
                 for e in by_t[t]:
                     f.write(json.dumps(e) + "\n")
-        r = ctx.tlc(module, None, name=os.path.basename(d), workers=1, timeout=1800, cfg_text=cfg_text)
+        r = ctx.tlc(module, None, name=os.path.basename(d), workers=1, timeout=1800, cfg_text=cfg_text, heap="2g")
         if not r["ok"]:
             raise vlib.Infra("trace validation run failed: invariant=%s error=%s (see %s/tlc.out)" % (
                 r["invariant"], r["error"], r["dir"]))
@@ -278,18 +278,18 @@ def run(ctx, replay):
 
     def job_mc():
         if thorough:
-            return ctx.tlc_expect_ok("Session", None, name="mc", workers=12, timeout=3000,
+            return ctx.tlc_expect_ok("Session", None, name="mc", workers=12, timeout=3000, heap="12g",
                                      cfg_text=cfg(["ra", "rb"], [1, 2, 3], ["temp", "perm"], 2, 8, tail=MC_TAIL))
-        return ctx.tlc_expect_ok("Session", None, name="mc", workers=8, timeout=600,
+        return ctx.tlc_expect_ok("Session", None, name="mc", workers=8, timeout=600, heap="4g",
                                  cfg_text=cfg(["ra", "rb"], [1, 2], ["perm"], 1, 6, tail=MC_TAIL))
 
     def job_live():   # liveness (every session ends) on a smaller bound
-        return ctx.tlc_expect_ok("Session", None, name="live", workers=2, timeout=900,
+        return ctx.tlc_expect_ok("Session", None, name="live", workers=2, timeout=900, heap="2g",
                                  cfg_text=cfg(["ra", "rb"], [1, 2], ["perm"], 1, 5 if thorough else 4,
                                               tail=MC_TAIL_LIVE))
 
     def job_asis(dv):  # every named deviation must be found by the same invariant (non-vacuity)
-        return ctx.tlc("Session", None, name="asis-" + dv, workers=2, timeout=600,
+        return ctx.tlc("Session", None, name="asis-" + dv, workers=2, timeout=600, heap="1g",
                        cfg_text=cfg(devs=[dv], tail="VIEW View\nINVARIANTS NoViolation\n", **small))
 
     def job_gen():     # one shortest behaviour per distinct final state of the as-is state graph
@@ -299,26 +299,26 @@ def run(ctx, replay):
         else:
             c = cfg(["ra", "rb"], [1, 2], ["perm"], 1, 5, devs=open_devs, gen=True,
                     tail="VIEW GenViewPlain\n" + GEN_TAIL)
-        return ctx.tlc("Session", None, name="gen", workers=6, timeout=2400, cfg_text=c)
+        return ctx.tlc("Session", None, name="gen", workers=6, timeout=2400, cfg_text=c, heap="6g")
 
     CORE = ["HELO:", "MAIL:ok", "MAIL:null", "RCPT:ok", "DATA:ok", "RSET:", "DROP:"]
 
     def job_core():    # core alphabet, one command deeper: one behaviour per (final state, set of event kinds)
         if thorough:
-            c = cfg(["ra", "rb"], [1, 2, 3], ["perm"], 2, 7, devs=open_devs, gen=True,
+            c = cfg(["ra", "rb"], [1, 2, 3], ["perm"], 1, 7, devs=open_devs, gen=True,
                     tail="VIEW GenView\n" + GEN_TAIL, allowed=CORE)
         else:
             c = cfg(["ra", "rb"], [1, 2], ["perm"], 1, 6, devs=open_devs, gen=True,
                     tail="VIEW GenView\n" + GEN_TAIL, allowed=CORE)
-        return ctx.tlc("Session", None, name="core", workers=4, timeout=2400, cfg_text=c)
+        return ctx.tlc("Session", None, name="core", workers=4, timeout=2400, cfg_text=c, heap="6g")
 
     def job_focus():   # the deep corner of the nested-MAIL deviation: a release that kills the server
-        return ctx.tlc("Session", None, name="focus", workers=4, timeout=900,
+        return ctx.tlc("Session", None, name="focus", workers=4, timeout=900, heap="2g",
                        cfg_text=cfg(["ra"], [1], [], 0, 8, devs=open_devs, gen=True, tail="VIEW GenView\n" + GEN_TAIL,
                                     allowed=["HELO:", "MAIL:ok", "MAIL:rej", "RCPT:ok", "RSET:", "DROP:"]))
 
     def job_sim(i, n, rc, nts, mf, mc):
-        return ctx.tlc("Session", None, name="sim%d" % i, workers=1, timeout=1500, simulate=n, depth=150,
+        return ctx.tlc("Session", None, name="sim%d" % i, workers=1, timeout=1500, simulate=n, depth=150, heap="2g",
                        cfg_text=cfg(rc, nts, ["temp", "perm"], mf, mc, devs=open_devs, gen=True, tail=GEN_TAIL))
 
     if replay:
